@@ -222,6 +222,17 @@ StrRepr(s) ==
     ELSE IF HasCp(s, 39) THEN <<34>> \o s \o <<34>>
     ELSE <<39>> \o s \o <<39>>
 
+\* Dict keys.  A key made by the language is always text (its code points).  A host-supplied dict may also have int keys:
+\* such a key is the sequence <<-2>> \o the code points of str(key), so it can never equal a text key.
+IsIntKey(k) == Len(k) > 0 /\ k[1] = -2
+IntKeyText(k) == Tail(k)
+IntKeyRep(k) == LET neg == Len(k) > 1 /\ k[2] = 45
+                    off == IF neg THEN 2 ELSE 1 IN
+                [sign |-> IF neg THEN 1 ELSE 0, digs |-> [i \in 1..(Len(k) - off) |-> k[i + off] - 48]]
+KeyVal(k) == IF IsIntKey(k) THEN MkInt(IntKeyRep(k)) ELSE Str(k)          \* the key as a value (iteration, keys(), items())
+KeyOfVal(v) == IF v.t = "str" THEN v.s ELSE <<-2>> \o IntToStr([sign |-> v.sign, digs |-> v.digs])
+KeyText(k) == IF IsIntKey(k) THEN IntKeyText(k) ELSE k                      \* str(key)
+
 RECURSIVE ValStr(_, _, _, _)
 RECURSIVE JoinRepr(_, _, _, _, _)
 RECURSIVE JoinDictRepr(_, _, _, _, _)
@@ -251,7 +262,7 @@ JoinRepr(h, xs, i, acc, fuel) ==
          ELSE JoinRepr(h, xs, i + 1, IF i = 1 THEN r ELSE acc \o cCommaSp \o r, fuel)
 JoinDictRepr(h, ps, i, acc, fuel) ==
     IF i > Len(ps) THEN acc
-    ELSE LET rk == StrRepr(ps[i][1])
+    ELSE LET rk == IF IsIntKey(ps[i][1]) THEN IntKeyText(ps[i][1]) ELSE StrRepr(ps[i][1])
              rv == ValStr(h, ps[i][2], TRUE, fuel) IN
          IF IsBadStr(rk) \/ IsBadStr(rv) THEN BadStr
          ELSE JoinDictRepr(h, ps, i + 1, (IF i = 1 THEN <<>> ELSE acc \o cCommaSp) \o rk \o cColonSp \o rv, fuel)
